@@ -95,6 +95,12 @@ Check C08_refines_ledger : forall cfg,
 Check C08_ledger_sum : forall cfg reqs led a,
   fold_left (spec_step cfg) reqs led a = option_map (fun v => v - spec_debits cfg led reqs a) (led a) /\
   (0 <= c_fee cfg -> Forall (fun r => 0 <= r_price r) reqs -> 0 <= spec_debits cfg led reqs a).
+Check C08_instrument_kind_irrelevant : forall cfg ks,
+  (forall st req, open_order (with_kinds cfg ks) st req = open_order cfg st req) /\
+  (forall ost rq, run_request (with_kinds cfg ks) ost rq = run_request cfg ost rq) /\
+  (forall rqs ost, run (with_kinds cfg ks) ost rqs = run cfg ost rqs) /\
+  (forall req, spec_spent (with_kinds cfg ks) req = spec_spent cfg req) /\
+  (forall led req, spec_accepts (with_kinds cfg ks) led req = spec_accepts cfg led req).
 Check C08_abs_quantity : forall f req,
   required f req = spec_need f req /\ fees_quote f req = spec_fees f req /\
   (0 <= r_qty req -> qabs (r_qty req) = r_qty req).
@@ -109,22 +115,22 @@ Check eq_refl : this (spec_need (qc 1 2) (pin_req Sell)) = 101 # 40.      (* 2.5
 Check eq_refl : this (spec_fees (qc 1 2) (pin_req Sell)) = 5 # 2.         (* 1 % x 100 x 2.5 *)
 Check eq_refl : this (required (qc 1 2) (pin_req Buy)) = 505 # 2.
 Check eq_refl : this (fees_quote (qc 1 2) (pin_req Sell)) = 5 # 2.
-Check eq_refl : spec_spent (mkCfg [(0, (3, 4))]%N (qc 0 0) 0) (pin_req Buy) = Some 4%N.    (* quote *)
-Check eq_refl : spec_spent (mkCfg [(0, (3, 4))]%N (qc 0 0) 0) (pin_req Sell) = Some 3%N.   (* base *)
-Check eq_refl : spec_spent (mkCfg [(5, (3, 4))]%N (qc 0 0) 0) (pin_req Sell) = None.
-Check eq_refl : spec_spent (mkCfg [(0, (3, 4))]%N (qc 0 0) 0)
+Check eq_refl : spec_spent (mkCfg [(0, (3, 4))]%N (qc 0 0) 0 []) (pin_req Buy) = Some 4%N.    (* quote *)
+Check eq_refl : spec_spent (mkCfg [(0, (3, 4))]%N (qc 0 0) 0 []) (pin_req Sell) = Some 3%N.   (* base *)
+Check eq_refl : spec_spent (mkCfg [(5, (3, 4))]%N (qc 0 0) 0 []) (pin_req Sell) = None.
+Check eq_refl : spec_spent (mkCfg [(0, (3, 4))]%N (qc 0 0) 0 [])
                   (mkReq 0 0 1 Buy (qc 1 0) (qc 1 0) Limit 0) = None.
 Definition pin_st (total free : Qc) : state := mkState [(3%N, mkBal total free 0)] 0 0 [] [] [].
-Check eq_refl : wf_state (mkCfg [(0, (3, 3))]%N (qc 0 0) 0) (pin_st (qc 1 0) (qc 1 0)) = true.
-Check eq_refl : wf_state (mkCfg [(0, (3, 3))]%N (qc 0 0) 0) (pin_st (qc 2 0) (qc 1 0)) = false.
-Check eq_refl : wf_state (mkCfg [(0, (3, 4))]%N (qc 0 0) 0) (pin_st (qc 1 0) (qc 1 0)) = false.
-Check eq_refl : spec_accepts (mkCfg [(0, (3, 4))]%N (qc 1 2) 0)
+Check eq_refl : wf_state (mkCfg [(0, (3, 3))]%N (qc 0 0) 0 []) (pin_st (qc 1 0) (qc 1 0)) = true.
+Check eq_refl : wf_state (mkCfg [(0, (3, 3))]%N (qc 0 0) 0 []) (pin_st (qc 2 0) (qc 1 0)) = false.
+Check eq_refl : wf_state (mkCfg [(0, (3, 4))]%N (qc 0 0) 0 []) (pin_st (qc 1 0) (qc 1 0)) = false.
+Check eq_refl : spec_accepts (mkCfg [(0, (3, 4))]%N (qc 1 2) 0 [])
                   (abs_ledger (pin_st (qc 2525 3) (qc 2525 3))) (pin_req Sell) = true.   (* need = balance *)
-Check eq_refl : spec_accepts (mkCfg [(0, (3, 4))]%N (qc 1 2) 0)
+Check eq_refl : spec_accepts (mkCfg [(0, (3, 4))]%N (qc 1 2) 0 [])
                   (abs_ledger (pin_st (qc 2524 3) (qc 2524 3))) (pin_req Sell) = false.
-Check eq_refl : awaited (mkCfg [] (qc 0 0) 10) (BGiveUp 9) = false.
-Check eq_refl : awaited (mkCfg [] (qc 0 0) 10) (BGiveUp 10) = true.
-Check eq_refl : awaited (mkCfg [] (qc 0 0) 10) BDrop = false.
+Check eq_refl : awaited (mkCfg [] (qc 0 0) 10 []) (BGiveUp 9) = false.
+Check eq_refl : awaited (mkCfg [] (qc 0 0) 10 []) (BGiveUp 10) = true.
+Check eq_refl : awaited (mkCfg [] (qc 0 0) 10 []) BDrop = false.
 Check eq_refl : mask false POffline = None.
 Check eq_refl : seqN 7 3 = [7; 8; 9]%N.
 Check eq_refl : accepted (ROpen 0 0 (qc 0 0)) = true.
